@@ -139,6 +139,9 @@ def fingerprint(m):
     """stable identification of a mismatch for the known-findings file"""
     rec = m.get("record") or {}
     op = (rec.get("opfull") or {}).get("op", "")
+    if (m.get("info") or {}).get("fp"):
+        # the finding is identified by its specific input (e.g. a corpus story), not by the kind of call
+        return ("%s/%s/%s" % (m["info"]["fp"], m["rule"], m.get("comp") or "-")).replace(" ", "_")
     fp = "%s/%s" % (m["rule"], op)
     pan = rec.get("panic")
     if pan:
